@@ -566,7 +566,27 @@ func (m *Machine) concIndex(v *term.T, signed bool, n int, site string) (int, bo
 		needOOR = v.RLo < 0 || v.RHi > int64(n-1)
 	}
 	if hi-lo+1 > m.cfg.MaxFanout {
-		m.unsupported(fmt.Sprintf("symbolic index over %d alternatives at %s", hi-lo+1, site))
+		// too wide to enumerate structurally: let the solver enumerate the values the
+		// path condition admits (decide_value.go); unsupported only if those are too many
+		w := int(v.S.W)
+		if w < 64 {
+			lim := uint64(1) << uint(w)
+			if signed {
+				lim >>= 1
+			}
+			if uint64(hi) >= lim {
+				hi = int(lim - 1)
+			}
+		}
+		var oor *term.T
+		if needOOR {
+			if signed {
+				oor = m.tb.Or(m.tb.SLt(v, m.tb.BV(w, uint64(lo))), m.tb.SLt(m.tb.BV(w, uint64(hi)), v))
+			} else {
+				oor = m.tb.Or(m.tb.ULt(v, m.tb.BV(w, uint64(lo))), m.tb.ULt(m.tb.BV(w, uint64(hi)), v))
+			}
+		}
+		return m.decideValue(site, v, signed, lo, hi, oor)
 	}
 	w := int(v.S.W)
 	conds := make([]*term.T, 0, hi-lo+2)
